@@ -24,6 +24,13 @@ def msgOf (j : Json) : R Msg := do
   let data ← getHex j "data"
   match kind with
   | "response" => pure (.response data ((getBool j "key").toOption.getD false))
+  | "upgrade" =>
+    -- the upgrade boundary: leftover plaintext in the HTTP parser, then reads on the secured connection
+    let key ← getNat j "key"
+    let leftover ← getHex j "leftover"
+    let reads ← (← getArr j "reads").toList.mapM asHex
+    let fin := Rx.run (mockAead key) (upgrade leftover) reads
+    pure (Json.mkObj [("closed", fin.1.closed), ("out", jhex fin.2)])
   | "event" => pure (.event data)
   | "delayed" => pure (.delayed data)
   | _ => throw s!"bad msg kind {kind}"
